@@ -184,6 +184,15 @@ def make_fixed(widths, delim_name, maxlen):
                 results[m] = read_mode(cid, Stream(textdata), m)
         ok, why = relation(results, None)
         yr = results["yield"][1]
+        if ok:
+            # absolute part: a text outside the record language stops reading with a data-format error (in every
+            # mode, by the relation above); a text inside it never does
+            from props.c13 import spec_parse, DELIMS
+            well_formed = spec_parse(textdata, list(widths), DELIMS[delim_name]) is not None
+            if well_formed and yr is not None and yr[0] == "DataFormatError":
+                ok, why = False, "well-formed fixed data ended with %r" % (yr,)
+            if not well_formed and (yr is None or yr[0] != "DataFormatError"):
+                ok, why = False, "malformed fixed data (short record / wrong delimiter) ended with %r instead of a DataFormatError" % (yr,)
         cls = ("fault" if yr is not None else "clean") + "-items%d" % min(len(results["yield"][0]), 2)
         return ok, why, cls
 
@@ -203,6 +212,14 @@ def make_fixed(widths, delim_name, maxlen):
             cid = interface.create_cid_from_string(text)
             results[m] = read_mode(cid, io.StringIO(args["textdata"], newline=""), m)
         ok, why = relation(results, None)
+        if ok:
+            from props.c13 import spec_parse, DELIMS
+            yr = results["yield"][1]
+            well_formed = spec_parse(args["textdata"], list(widths), DELIMS[delim_name]) is not None
+            if well_formed and yr is not None and yr[0] == "DataFormatError":
+                ok, why = False, "well-formed fixed data ended with %r" % (yr,)
+            if not well_formed and (yr is None or yr[0] != "DataFormatError"):
+                ok, why = False, "malformed fixed data (short record / wrong delimiter) ended with %r instead of a DataFormatError" % (yr,)
         return (not ok), "fixed widths %r delimiter %s text %r: %s" % (widths, delim_name, args["textdata"], why), \
             "modes-relation-fixed"
 
